@@ -42,6 +42,7 @@ func init() { runners["C11"] = runC11 }
 var (
 	c11ProbeRe = regexp.MustCompile(`(?s)<P(\d+)([ab])\|(.*?)\|>`)
 	c11ViewRe  = regexp.MustCompile(`(?s)<I(\d+)\|(.*?)\|>`)
+	c11OnlyRe  = regexp.MustCompile(`\{%-?\s*include\b[^%]*\bonly\b`)
 )
 
 // c11Oracles returns "" when the three oracles hold on (out, class), else what fails.
@@ -170,9 +171,21 @@ func c11RunLoader(c Case) (out, class, detail string) {
 // generated case needs fails the rendering (templates that include each other without end under a changed engine
 // are reported with their input instead of exhausting the stack).
 func c11RunCase(c Case) (out string, errClass string, spyCounts map[string]int, detail string) {
+	return c11RunCaseWith(c, false)
+}
+
+// withGlobals: every variable of the render context also exists as an engine global with another value. A global is
+// a default for names the templates do not have: the including template's variable (and the render context's)
+// must hide it in the included templates as well, so the output must not change.
+func c11RunCaseWith(c Case, withGlobals bool) (out string, errClass string, spyCounts map[string]int, detail string) {
 	ee := newEvalEngine(c)
 	if !ee.regOK {
 		return "", "parse", ee.spy, ee.regEr
+	}
+	if withGlobals {
+		for k := range parseContext(c.str("ctx")) {
+			ee.eng.AddGlobal(k, "GLOBAL-"+k)
+		}
 	}
 	ticks := 0
 	ee.eng.AddFunction("tick", func(args ...interface{}) (interface{}, error) {
@@ -248,6 +261,29 @@ func runC11(cases string, res *Result) {
 		res.Evaluations++
 		res.Hist["class:"+class]++
 		observed := evalObserved(out, class)
+		hasOnly := false // `only` hides the including template's variables: the globals are then what the included template reads
+		for _, x := range combos {
+			if s, _ := x.(string); strings.Contains(s, "o1") {
+				hasOnly = true
+			}
+		}
+		if srcs, ok := c["readable"].(map[string]string); ok {
+			for _, src := range srcs {
+				if c11OnlyRe.MatchString(src) {
+					hasOnly = true
+				}
+			}
+		}
+		if stream != "c11-loader" && !hasOnly && len(parseContext(c.str("ctx"))) > 0 {
+			o2, c2, _, _ := c11RunCaseWith(c, true)
+			res.Evaluations++
+			res.Hist["with-shadowed-globals"]++
+			if obs2 := evalObserved(o2, c2); obs2 != observed {
+				res.add(Finding{Kind: "oracle", Where: stream + " " + c.str("leaf") + " shadowed-globals", Case: c, Expected: observed, Observed: obs2,
+					Detail: "every variable of the render context was also registered as an engine global with another value: a template of the chain reads the global instead of the variable"})
+				return
+			}
+		}
 		res.sample(map[string]interface{}{"templates": c["readable"], "ctx": c.str("ctx"), "observed": observed}, 6)
 
 		spec := c11Pred(c, "spec")
